@@ -8,6 +8,7 @@ import (
 
 var registry = map[string]core.Harness{
 	"C03": C03{},
+	"C01": C01{},
 	"C04": C04{},
 	"C10": C10{},
 }
